@@ -322,6 +322,12 @@ def handle (j : Json) : R Json := do
   match k with
   | "ping" => pure (Json.mkObj [("pong", jn 1)])
   | "dag" => dagCmd j
+  | "range" =>
+      -- C13: the three range properties of a format, as exact rationals "p/q"
+      let E ← jnat j "E"; let M ← jnat j "M"
+      let rs := fun (q : Rat) => Json.str s!"{q.num}/{q.den}"
+      pure (Json.mkObj [("max", rs (F32.maxAbsValue E M)), ("min_normal", rs (F32.minAbsNormal E)),
+                        ("min_subnormal", rs (F32.minAbsSubnormal E M)), ("absmax_bits", jn (F32.absmaxBits E M))])
   | "bind" =>
       -- {"target": "Q.linear", "nargs": 3, "kw": ["bias"]}: positional i is the literal "a<i>", keyword k the literal "k:<k>"
       let t ← jstr j "target"
